@@ -7,14 +7,16 @@
   * `absN`, `isAdditive`             : `bool(np.isclose(surplus + np.sum(sv), np.sum(sv), rtol=rtol, atol=0))`
   * `subSingleton`, `normalizeIcg`    : `_normalize_icg`, in the in-place order of the code; the relative tolerance
                                         (the code's literal `1e-9`, `defaultRtol`) is a parameter
-  * `closedW`, `closedAdditive`, `normVal` : the closed form `w c = v c − Σ_{i∈c} v{i}` and `w / w(N)`
-                                        (unless `w(N) = 0` or `|w(N)| ≤ rtol·|Σ_i v{i}|`)
+  * `closedW`, `closedAdditive`, `normVal` : the closed form `w c = v c − Σ_{i∈c} v{i}`; the normal form is
+                                        identically 0 when `|w(N)| ≤ rtol·|Σ_i v{i}|`, else `w / w(N)` (`w` when `w(N) = 0`)
   * `normalizeGraph`                  : `_normalize_graph_game`
   * `denormalize`, `denormalizeGraph` : `denormalize_game`, `_denormalize_graph_game`
   * `normalizeGame`, `normalizeGameGraph` : `normalize_game` (info is gathered BEFORE normalising)
 
-  Division happens only behind the code's own guard `if not grand_coalition_value or additive: return`; the
-  guard is `if g = 0 ∨ additive` here (`not x` of a float is `x == 0.0`), so no `x / 0` is ever evaluated.
+  After the subtraction loop and the read of the grand coalition the code does
+  `if additive: game.set_values(np.zeros(2**n, Value)); return` (the model's `Table.setValues … none`: all rows
+  `< 2^n` become known with both bounds 0) and then `if not grand_coalition_value: return`.  Division happens only
+  behind that guard, `if g = 0` here (`not x` of a float is `x == 0.0`), so no `x / 0` is ever evaluated.
   `additive` is computed from `_get_norminfo(game)` BEFORE the subtraction loop (so a missing singleton or grand
   value raises there, before any row is rewritten; an unknown other coalition still raises inside the loop —
   both are ValueError, and `normalize_game` has called `_get_norminfo` once already).
@@ -109,14 +111,16 @@ variable [Add α] [Sub α] [Mul α] [Div α] [Neg α] [Max α] [Zero α] [LE α]
 
 /-- `_normalize_icg` (`rtol` is the literal `1e-9` of the code):
     `surplus, singleton_values = _get_norminfo(game)`; `additive = bool(np.isclose(…))`; the singleton-by-singleton
-    subtraction; `grand_coalition_value = game.get_value(grand)`;
-    `if not grand_coalition_value or additive: return`; otherwise both bound columns are divided. -/
+    subtraction; `grand_coalition_value = game.get_value(grand)` (may raise, before the next test);
+    `if additive: game.set_values(np.zeros(2**n, Value)); return`;
+    `if not grand_coalition_value: return`; otherwise both bound columns are divided. -/
 def normalizeIcg (rtol : α) (t : Table α) : Except Err (Table α) := do
   let info ← normInfo t
   let additive := isAdditive rtol info
   let t1 ← (List.range t.n).foldlM subSingleton t
   let g ← t1.getValue (grand t1.n)
-  if g = 0 ∨ additive = true then pure t1 else pure (divColumns t1 g)
+  if additive then t1.setValues (List.replicate (2 ^ t1.n) 0) none
+  else if g = 0 then pure t1 else pure (divColumns t1 g)
 
 /-- `normalize_game` on a table: the info is gathered first, from the un-normalised game. -/
 def normalizeGame (rtol : α) (t : Table α) : Except Err ((α × List α) × Table α) := do
@@ -135,11 +139,12 @@ def closedAdditive [Add α] [Sub α] [Mul α] [Neg α] [Max α] [Zero α] [LE α
     (n : Nat) (rtol : α) (v : Nat → α) : Bool :=
   decide (absN (closedW v (grand n)) ≤ rtol * absN (listSum ((List.range n).map (fun i => v (singleton i)))))
 
-/-- closed form of the whole normalisation: `w` when `w(N) = 0` or the game is additive up to `rtol`,
-    `w / w(N)` otherwise -/
+/-- closed form of the whole normalisation: identically 0 when the game is additive up to `rtol`; otherwise
+    `w` when `w(N) = 0` and `w / w(N)` when not -/
 def normVal [Add α] [Sub α] [Mul α] [Div α] [Neg α] [Max α] [Zero α] [LE α] [DecidableLE α] [DecidableEq α]
     (n : Nat) (rtol : α) (v : Nat → α) (c : Nat) : α :=
-  if closedW v (grand n) = 0 ∨ closedAdditive n rtol v = true then closedW v c
+  if closedAdditive n rtol v then 0
+  else if closedW v (grand n) = 0 then closedW v c
   else closedW v c / closedW v (grand n)
 
 /-- `_normalize_graph_game`: nothing when the grand value is 0; otherwise zero `M[j, i]` for `j ≥ i`, then
